@@ -1,5 +1,5 @@
 """C02 — a 'safe' or 'unreachable' assertion verdict is never wrong."""
-import os, re, random, vlib, cfgprog, bwdcommon, C02_inter
+import os, re, random, vlib, cfgprog, bwdcommon, C02_inter, C02_doms
 
 # forward+backward: hand-picked cases aimed at the dominance-based discharge
 FB_EXTRA = [
@@ -39,6 +39,7 @@ def run(rep, tier, seed):
                     nontrivial=cfgprog.nontrivial_verdicts, key=lambda l: "program")
     # verdicts of the checker interleaved with the inter-procedural analyses: oracle only
     C02_inter.streams(rep, tier, seed)
+    C02_doms.streams(rep, tier, seed)
     # forward+backward analyzer: correspondence with the Coq mirror Ana/FwdBwd.v (theorem
     # C02_forward_backward_verdicts_sound applies to what the mirror prints) + concrete oracle
     rep.assumptions = [a.replace("forward+backward (refinement loop, dominance-based discharge) and inter-procedural verdicts",
